@@ -27,23 +27,26 @@
    handleXLogData forwards (BEGIN that is not dropped, change, COMMIT), i.e. its WriteLoop is
    reached; [i_blocked it] = one element per tick served in that WriteLoop while the output channel
    is full (values waiting on the progress channel at that tick, channel closed after them);
-   [blocked_closed bl] = some tick finds the channel closed; [blocked_obs h true cur bl] = the
-   observations of those ticks: per tick CGetStart h false, CSend (position after absorbing the
-   tick's values), up to the first tick that finds the channel closed. *)
+   [blocked_closed bl] = some tick finds the channel closed; [blocked_obs h conn cur bl] = the
+   observations of those ticks: per tick CGetStart h fresh, CSend (position after absorbing the
+   tick's values), up to the first tick that finds the channel closed; fresh = negb conn for the
+   first tick (conn = the manager holds a live connection when the loop is entered = the
+   connection did not die at this message boundary: negb (i_dies it)), false afterwards. *)
 From Bifrost.model Require Import Base Client.
 From Bifrost.proofs Require Import ClientProofs ClientProofs2.
 
 (* keepalive with ReplyRequested, received by a running client whose loop-head handleProgress
    succeeded: either the progress channel is found closed at the second handleProgress — the
    client stops without replying: (Close, Stop) —, or the observations after the receive are
-   exactly: connection request (never a fresh one), CSend of the then-current position, and —
+   exactly: connection request (a fresh one iff the connection died at this message boundary:
+   [i_dies it]), CSend of the then-current position, and —
    only if the rapid-heartbeat rule fires — Close, Stop AFTER the reply. *)
 Theorem C18_reply_before_next_read_exact : forall s it s' o w sl,
   stopped s = false -> i_pclosed it = false -> i_ev it = EKeepalive w true sl ->
   cstep s it = (s', o) ->
   (i_pclosed2 it = true /\ o = head_pre s it ++ CRecv :: [CClose; CStop] /\ stopped s' = true) \/
   (i_pclosed2 it = false /\
-   o = head_pre s it ++ CRecv :: [CGetStart (highest s) false; CSend (overall s')] ++
+   o = head_pre s it ++ CRecv :: [CGetStart (highest s) (i_dies it); CSend (overall s')] ++
        (if rapid s sl then [CClose; CStop] else []) /\
    stopped s' = rapid s sl /\ overall s' = hp_val (head_state s it) (i_prog2 it)).
 Proof. exact cstep_keepalive_reply. Qed.
@@ -70,7 +73,7 @@ Theorem C18_timeout_sends : forall s it s' o,
   cstep s it = (s', o) ->
   (i_pclosed2 it = true /\ o = head_pre s it ++ CRecv :: [CClose; CStop] /\ stopped s' = true) \/
   (i_pclosed2 it = false /\
-   o = head_pre s it ++ CRecv :: [CGetStart (highest s) false; CSend (overall s')] /\
+   o = head_pre s it ++ CRecv :: [CGetStart (highest s) (i_dies it); CSend (overall s')] /\
    stopped s' = false /\ overall s' = hp_val (head_state s it) (i_prog2 it)).
 Proof. exact cstep_timeout. Qed.
 Print Assumptions C18_timeout_sends.
@@ -89,8 +92,8 @@ Print Assumptions C18_tick_sends.
    forwarded, the output channel is full for [length (i_blocked it)] ticks of the progress ticker
    and none of them finds the progress channel closed: the observations of the iteration are
    exactly  head ++ CRecv :: sends ++ [m]  where [sends] consists of one connection request
-   (never a fresh one; it carries highestWalStart including a held COMMIT) and ONE status update
-   per tick - so the iteration's status updates number (1 if the loop head sent one) + (number of
+   (a fresh one only if the connection died at this message boundary; it carries highestWalStart
+   including a held COMMIT) and ONE status update per tick - so the iteration's status updates number (1 if the loop head sent one) + (number of
    blocked ticks) -, and the message [m] is still forwarded afterwards; the client keeps running
    and holds the position after absorbing all the ticks' values. *)
 Theorem C18_blocked_tick_sends : forall s it s' o,
@@ -100,8 +103,9 @@ Theorem C18_blocked_tick_sends : forall s it s' o,
   exists m sends,
     ev_couts (head_state s it) (i_ev it) = [m] /\
     o = head_pre s it ++ CRecv :: sends ++ [m] /\
-    sends = blocked_obs (highest s') true (hp_val s (i_prog it)) (i_blocked it) /\
-    (forall x, In x sends -> x = CGetStart (highest s') false \/ exists v, x = CSend v) /\
+    sends = blocked_obs (highest s') (negb (i_dies it)) (hp_val s (i_prog it)) (i_blocked it) /\
+    (forall x, In x sends ->
+       (exists f, x = CGetStart (highest s') f /\ (f = true -> i_dies it = true)) \/ exists v, x = CSend v) /\
     List.length (acks sends) = List.length (i_blocked it) /\
     List.length (acks o) = ((if head_sends s it then 1 else 0) + List.length (i_blocked it))%nat /\
     stopped s' = false /\
@@ -116,7 +120,7 @@ Theorem C18_blocked_channel_closed_stops : forall s it s' o,
   stopped s = false -> i_pclosed it = false ->
   reaches_write_loop s (i_ev it) = true -> blocked_closed (i_blocked it) = true ->
   cstep s it = (s', o) ->
-  o = head_pre s it ++ CRecv :: blocked_obs (highest s') true (hp_val s (i_prog it)) (i_blocked it) ++ [CClose; CStop] /\
+  o = head_pre s it ++ CRecv :: blocked_obs (highest s') (negb (i_dies it)) (hp_val s (i_prog it)) (i_blocked it) ++ [CClose; CStop] /\
   couts o = [] /\ stopped s' = true.
 Proof. exact cstep_blocked_channel_closed. Qed.
 Print Assumptions C18_blocked_channel_closed_stops.
@@ -140,7 +144,7 @@ Print Assumptions C18_stop_is_announced.
 
 (* ---------------- non-vacuity ---------------- *)
 Definition c18_first : cev := EKeepalive 100 false false.
-Definition c18_ka (slow : bool) : citer := mkIter false [] false (EKeepalive 100 true slow) [] false [].
+Definition c18_ka (slow : bool) : citer := mkIter false [] false (EKeepalive 100 true slow) [] false [] false.
 
 (* one reply request: answered before the next receive, the client keeps running *)
 Example C18_reply_nonvacuous :
@@ -162,13 +166,13 @@ Proof. vm_compute. repeat split. Qed.
 
 (* ticker and timeout *)
 Example C18_tick_timeout_nonvacuous :
-  snd (cstep (fst (crun c18_first [])) (mkIter true [150]%N false ETimeout [170]%N false [])) =
+  snd (cstep (fst (crun c18_first [])) (mkIter true [150]%N false ETimeout [170]%N false [] false)) =
     [CGetStart 0 false; CSend 150; CGetStart 0 false; CRecv; CGetStart 0 false; CSend 170].
 Proof. vm_compute. reflexivity. Qed.
 
 (* progress channel closed at the loop head: the pending keepalive is never read *)
 Example C18_closed_channel_stops :
-  cstep (fst (crun c18_first [])) (mkIter false [] true (EKeepalive 100 true true) [] false []) =
+  cstep (fst (crun c18_first [])) (mkIter false [] true (EKeepalive 100 true true) [] false [] false) =
     (stop (fst (crun c18_first [])), [CClose; CStop]).
 Proof. vm_compute. reflexivity. Qed.
 
@@ -177,10 +181,10 @@ Proof. vm_compute. reflexivity. Qed.
    second, 140 - stale - at the third): three more updates, then the message is forwarded.  The
    hypotheses of C18_blocked_tick_sends hold. *)
 Definition c18_blocked : citer :=
-  mkIter true [120]%N false (EXLog 300 (XChange "INSERT")) [] false [([150], false); ([], false); ([140], false)]%N.
+  mkIter true [120]%N false (EXLog 300 (XChange "INSERT")) [] false [([150], false); ([], false); ([140], false)]%N false.
 
 Example C18_blocked_tick_sends_nonvacuous :
-  let s := fst (crun c18_first [mkIter false [] false (EXLog 200 (XBegin "7")) [] false []]) in
+  let s := fst (crun c18_first [mkIter false [] false (EXLog 200 (XBegin "7")) [] false [] false]) in
   stopped s = false /\ i_pclosed c18_blocked = false /\
   reaches_write_loop s (i_ev c18_blocked) = true /\ blocked_closed (i_blocked c18_blocked) = false /\
   snd (cstep s c18_blocked) =
@@ -194,7 +198,7 @@ Proof. vm_compute. repeat split. Qed.
 (* the channel is closed at the second blocked tick: one update, Close, Stop, nothing forwarded *)
 Example C18_blocked_channel_closed_nonvacuous :
   let s := fst (crun c18_first []) in
-  let it := mkIter false [] false (EXLog 200 (XBegin "7")) [] false [([150], false); ([], true)]%N in
+  let it := mkIter false [] false (EXLog 200 (XBegin "7")) [] false [([150], false); ([], true)]%N false in
   reaches_write_loop s (i_ev it) = true /\ blocked_closed (i_blocked it) = true /\
   snd (cstep s it) = [CGetStart 0 false; CRecv; CGetStart 0 false; CSend 150; CClose; CStop] /\
   stopped (fst (cstep s it)) = true.
@@ -202,8 +206,15 @@ Proof. vm_compute. repeat split. Qed.
 
 (* a BEGIN that is dropped returns before the WriteLoop: blocked ticks play no role *)
 Example C18_dropped_begin_never_blocks :
-  let s := fst (crun c18_first [mkIter false [] false (EXLog 200 (XBegin "7")) [] false []]) in
-  let it := mkIter false [] false (EXLog 600 (XBegin "8")) [] false [([150], false); ([], true)]%N in
+  let s := fst (crun c18_first [mkIter false [] false (EXLog 200 (XBegin "7")) [] false [] false]) in
+  let it := mkIter false [] false (EXLog 600 (XBegin "8")) [] false [([150], false); ([], true)]%N false in
   reaches_write_loop s (i_ev it) = false /\
   snd (cstep s it) = [CGetStart 0 false; CRecv; CClose] /\ stopped (fst (cstep s it)) = false.
 Proof. vm_compute. repeat split. Qed.
+
+(* the connection dies at the boundary of a reply-requested keepalive: the reply is still sent
+   before the next read - on a NEW connection (START_REPLICATION at highestWalStart) *)
+Example C18_reply_after_silent_death :
+  snd (cstep (fst (crun c18_first [])) (mkIter false [] false (EKeepalive 100 true true) [] false [] true)) =
+    [CGetStart 0 false; CRecv; CGetStart 0 true; CSend 100].
+Proof. vm_compute. reflexivity. Qed.
